@@ -23,7 +23,11 @@ Definition step_eqb (a b : step) : bool :=
   | _, _ => false
   end.
 
-(* LoadFromEnvironment, setEnvOptions (the viper options that decide what "set" means), linkFlagKeysToStructureKeys *)
+(* what a loop over the members of a flag set (BindFlagsToEnv) does at a nil member (a Lookup of an undefined flag) *)
+Inductive nilk := NilSkip | NilStop.
+
+(* LoadFromEnvironment, setEnvOptions (the viper options that decide what "set" means), linkFlagKeysToStructureKeys,
+   multiFlags (several flags bound to one key) *)
 Record lfacts := mkLF {
   l_steps : list step;
   l_allow_empty_env : bool;          (* the argument of viperSession.AllowEmptyEnv *)
@@ -33,6 +37,8 @@ Record lfacts := mkLF {
   l_set_when_isset : bool;           (* if IsSet(flagKey) { Set(key, Get(flagKey)) } *)
   l_guard_default_nonempty : bool;   (* else-branch guarded by !reflection.IsEmpty(value) *)
   l_guard_current_empty : bool;      (* the override of the else-branch guarded by reflection.IsEmpty(Get(key)) *)
+  l_multi_changed_nil : nilk;        (* multiFlags.HasChanged: a nil member is skipped / ends the scan *)
+  l_multi_value_nil : nilk;          (* multiFlags.ValueString: the same for the scan that collects the values *)
 }.
 
 (* spelling of keys and variable names: setEnvOptions' key replacer, generateEnvVarConfigKeys, generateEnvVarConfigKey,
